@@ -167,7 +167,15 @@ def identify_missing_sections(existing_config: dict, all_sections: list[str]) ->
 def _find_global_settings_position(content: str) -> int:
     """Find position of GLOBAL SETTINGS section in content."""
     marker = "# ============================================================================\n# GLOBAL SETTINGS"
-    return content.find(marker)
+    position = content.find(marker)
+    if position <= 0:
+        return position
+    # Only a marker followed by a top-level key is a safe insertion point; the same comment in
+    # the middle of an indented block would split that block
+    for line in content[position:].split("\n")[2:]:
+        if line.strip() and not line.lstrip().startswith("#"):
+            return -1 if line[0].isspace() else position
+    return position
 
 
 def _insert_before_global_settings(content: str, sections_text: str, insert_pos: int) -> str:
